@@ -116,6 +116,8 @@ def run_with(spec, evaluate, liveness=False):
         if obs.hang is not None:
             if not hasattr(obs, 'events'):
                 obs.events = obs.world.log.snapshot()
+            if callable(liveness):
+                liveness = bool(liveness(obs))  # decided from what was observed (e.g. only once a cancel had been issued)
             r = hang_result(obs, liveness)
             if liveness and obs.hang == 'deadlock':
                 r['violations'] = [oracles.V(
